@@ -448,6 +448,23 @@ func runSyncScript(dir string, c *chain, id int, script [][]item, source string)
 
 func randomScript(n int) [][]item {
 	var s [][]item
+	if rng.Intn(4) == 0 {
+		// a genuine block arrives before its predecessor (refused for the gap), the chain catches up, and then the same block
+		// comes again with a flaw: signed by another key, re-bodied, or alien - what was seen earlier must not vouch for it
+		k := 2 + rng.Intn(n-1)
+		for q := 1; q < k-1; q++ {
+			s = append(s, []item{{q, "pub"}})
+		}
+		s = append(s, []item{{k, "pub"}})
+		if rng.Intn(2) == 0 {
+			s = append(s, []item{{k, "pub"}, {k - 1, "pub"}})
+		} else {
+			s = append(s, []item{{k - 1, "pub"}})
+		}
+		s = append(s, []item{{k, []string{"forged", "forged", "rebodied", "alien"}[rng.Intn(4)]}})
+		s = append(s, []item{{k, "pub"}})
+		return s
+	}
 	for k := 0; k < 2+rng.Intn(5); k++ {
 		var m []item
 		switch rng.Intn(6) {
